@@ -216,7 +216,8 @@ Proof.
       assert (He : equiv orelse (fixe orelse (rdi n orelse))) by (apply fixe_equiv, IHp).
       destruct h as [t|it]; [|apply equiv_loop; auto].
       destruct (tval t) as [[|]|] eqn:Et; try (apply equiv_loop; auto).
-      eapply equiv_trans; [apply while_false; auto|apply IHp].
+      destruct orelse as [|o1 otl]; [|apply equiv_loop; auto].
+      eapply equiv_trans; [apply while_false; auto|apply equiv_refl].
   - destruct e as [|s tl]; [apply equiv_refl|].
     assert (Hgen : equiv (s :: tl) (fixe (s :: tl) (rdi n (s :: tl)))) by (apply fixe_equiv, IHp).
     destruct s; try exact Hgen. destruct tl; [|exact Hgen].
